@@ -17,6 +17,8 @@ def handle (j : Json) : Except String Json := do
   | "walk" => hWalk j
   | "sync" => hSync j
   | "sendproto" => hSendProto j
+  | "recvproto" => hRecvProto j
+  | "hostile" => hHostile j
   | _ => throw s!"bad-op {op}"
 
 partial def loop (h : IO.FS.Stream) (out : IO.FS.Stream) : IO Unit := do
